@@ -174,6 +174,15 @@ def two_empty_ids(L, r):
 
 
 @defect
+def blank_preserved_texts(L, r):
+    # white space kept by xml:space="preserve" is still blank
+    L['synsets'][r.randrange(4)]['definitions'].append(
+        {'text': r.choice(['   ', ' \t ']), 'meta': None, '_preserve': True})
+    L['synsets'][r.randrange(4)].setdefault('examples', []).append(
+        {'text': r.choice(['  ', ' \n ']), 'meta': None, '_preserve': True})
+
+
+@defect
 def blank_example(L, r):
     L['synsets'][r.randrange(4)].setdefault('examples', []).append({'text': r.choice(['', '  ']), 'meta': None})
 
